@@ -213,6 +213,19 @@ func runC11(r *Run) {
 		r.Bad("R1", "anchor/Redeem", "", "liquidvesting Keeper.Redeem not found")
 	}
 
+	// the split point of the current period uses the same boundary convention as the period count
+	r.Rule("R4", "TABLE.boundary-convention (sibling agreement): CurrentPeriodShift compares the running period end with currentTime so that a period ending exactly at currentTime has ended, as x/vesting's ReadPastPeriodCount does (C09 R4) — the shift into the current period and the count of past periods that Liquidate/Redeem combine must cut the schedule at the same instant")
+	if fn, ok := P.FnOK("x/liquidvesting/types.CurrentPeriodShift"); ok {
+		checkBoundary(r, "R4", fn, "currentTime")
+	} else {
+		r.Bad("R4", "anchor/CurrentPeriodShift", "", "not found")
+	}
+	if fn, ok := P.FnOK("x/vesting/types.ReadPastPeriodCount"); ok {
+		checkBoundary(r, "R4", fn, "readTime")
+	} else {
+		r.Bad("R4", "anchor/ReadPastPeriodCount", "", "not found")
+	}
+
 	// the denom store records exactly the schedule it is handed
 	r.Rule("R3", "FLOW.schedule-stored-unmodified: UpdateDenomPeriods stores its periods parameter itself into Denom.LockupPeriods and then SetDenom; CreateDenom stores its periods parameter itself and an EndTime derived from start + periods.TotalLength()")
 	if fn, ok := P.FnOK("(" + lk + ".Keeper).UpdateDenomPeriods"); ok {
